@@ -90,6 +90,28 @@ def run(ctx):
                              "lc_orbit_depth": rng.choice([None, 1, 2])}, False))
     for n in (4, 5):
         jobs.append((nx.path_graph(n), {"n_iso_graphs": 1, "n_lc_graphs": 3, "lc_method": "linear", "sort_emit": False}, False))
+    # the scripted orbit methods on relabelled inputs (a path whose vertex 0 is interior, relabelled repeater graphs)
+    # and with several isomorphs requested
+    for n in (4, 5) if ctx.quick else (3, 4, 5, 6):
+        for k in range(2 if ctx.quick else 6):
+            perm = list(range(n))
+            while perm[0] in (0, n - 1):
+                rng.shuffle(perm)
+            h = nx.relabel_nodes(nx.path_graph(n), {i: perm[i] for i in range(n)})
+            hh = nx.Graph()
+            hh.add_nodes_from(range(n))
+            hh.add_edges_from(h.edges())
+            jobs.append((hh, {"n_iso_graphs": 1 + k % 3, "n_lc_graphs": rng.randint(2, 4), "lc_method": "linear",
+                              "sort_emit": False}, False))
+        jobs.append((nx.path_graph(n), {"n_iso_graphs": 3, "n_lc_graphs": 3, "lc_method": "linear", "sort_emit": False}, False))
+    for k in range(1 if ctx.quick else 4):
+        perm = list(range(4))
+        rng.shuffle(perm)
+        h = nx.relabel_nodes(rgs(2), {i: perm[i] for i in range(4)})
+        hh = nx.Graph()
+        hh.add_nodes_from(range(4))
+        hh.add_edges_from(h.edges())
+        jobs.append((hh, {"n_iso_graphs": 1 + k % 2, "n_lc_graphs": 3, "lc_method": "rgs", "sort_emit": False}, False))
     jobs.append((rgs(2), {"n_iso_graphs": 1, "n_lc_graphs": 3, "lc_method": "rgs", "sort_emit": False}, False))
     if not ctx.quick:
         jobs.append((rgs(3), {"n_iso_graphs": 1, "n_lc_graphs": 4, "lc_method": "rgs", "sort_emit": False}, False))
